@@ -552,19 +552,63 @@ def selftest(seed):
                                        if nd["kind"] == "In"] + [{"a": "commit"}]
             acts += [{"a": "query", "t": 0, "n": i + 1} for i in range(len(prog["nodes"]))]
             f.write(json.dumps({"prog": prog, "actions": acts}) + "\n")
+    # ... and the witness history, whose last cycle default is judged (one self-loop, CycSimple)
+    with open(cases, "a") as f:
+        f.write(open(os.path.join(vp.ROOT, "witness", "c06_cases.ndjson")).readline().strip() + "\n")
     tr = os.path.join(wd, "t.ndjson")
     ec.eng_seq(bd, tr, mode="replay", **{"in": cases})
     ev = vp.read_ndjson(tr)
-    # turn one cycle default (7) into another value: must be flagged
-    done = False
+    # turn the last cycle default (7) handed to the user into another value: must be flagged
+    last = max((i for i, e in enumerate(ev) if e["e"] == "query" and e["v"] == 7), default=-1)
+    done = last >= 0
     t2 = os.path.join(wd, "t2.ndjson")
     with open(t2, "w") as f:
-        for e in ev:
-            if not done and e["e"] == "query" and e["v"] == 7:
-                e = dict(e); e["v"] = 0; done = True
+        for i, e in enumerate(ev):
+            if i == last:
+                e = dict(e); e["v"] = 0
             f.write(json.dumps(e) + "\n")
     res, _ = ec.validate(t2, t2 + ".json")
     ok = done and any(v["kind"] == "query_value" for v in res["viol"])
     print(f"selftest {PID}: a corrupted cycle default is flagged: {ok}")
+    # the binding of EngineCyc: behaviours with the model's prediction are replayed; corrupting one recorded
+    # field of the engine's state dump (a caller removed from a backward-edge set), one executor run (a read
+    # dropped) or one query value must each be reported by tools/cyc_conform.py
+    cfgg = os.path.join(wd, "gen.cfg")
+    open(cfgg, "w").write(open(os.path.join(vp.SPECS, "EngineCycMC_gen.cfg")).read().replace('SccFix = "fresh"', 'SccFix = "forget"'))
+    rg = vp.tlc("EngineCycMC", cfg=cfgg, env={"FAMILY": fam, "SHARD": "0", "SHARDS": "1"}, workers=1, timeout=600, check_ok=False,
+                extra=["-simulate", "num=30", "-depth", "40", "-seed", str(seed)])
+    beh = os.path.join(wd, "beh.ndjson")
+    nb = _json_lines(rg["out"], beh)
+    trm = os.path.join(wd, "beh_tr.ndjson")
+    ec.eng_seq(bd, trm, mode="replay", cyc=1, dump=1, **{"in": beh})
+
+    def conform(path):
+        p = vp.run(["python3", os.path.join(vp.ROOT, "tools", "cyc_conform.py"), "compare", beh, path])
+        return json.loads(p.stdout.strip().splitlines()[-1])
+    base = conform(trm)
+    evm = vp.read_ndjson(trm)
+    kinds = {}
+    for what in ("state", "runs", "value"):
+        hit = False
+        out = []
+        for e in evm:
+            e = dict(e)
+            if not hit and what == "state" and e.get("e") == "dump" and e.get("back"):
+                e["back"] = e["back"][:-1]; hit = True
+            elif not hit and what == "runs" and e.get("e") == "exec" and e.get("reads"):
+                e["reads"] = e["reads"][:-1]; hit = True
+            elif not hit and what == "value" and e.get("e") == "query":
+                e["v"] = (e["v"] + 1) % 3; hit = True
+            out.append(e)
+        pth = os.path.join(wd, f"beh_tr_{what}.ndjson")
+        with open(pth, "w") as f:
+            for e in out:
+                f.write(json.dumps(e) + "\n")
+        c = conform(pth)
+        kinds[what] = hit and c["mismatches"] >= 1 and c["first"][0]["kind"] == what
+    ok2 = nb > 0 and base["mismatches"] == 0 and all(kinds.values())
+    print(f"selftest {PID}: EngineCyc predictions agree with the engine ({base['behaviours']} behaviours, "
+          f"{base['state_snapshots_compared']} state snapshots) and each corruption is reported: {kinds}")
+    ok = ok and ok2
     print("selftest", "passed" if ok else "FAILED")
     return 0 if ok else 2
